@@ -265,6 +265,7 @@ def emit_format_bonding(repo, tier="quick"):
         if isinstance(st, ast.Assign) and isinstance(st.targets[0], ast.Name) and isinstance(st.value, ast.Subscript) and \
                 isinstance(st.value.value, ast.Name) and st.value.value.id == tname:
             symvars.add(st.targets[0].id)
+    undecided = None
     for order in (0, 1, 2, 3, 4):
         sym = wtable.get(order)
         emitted = None
@@ -276,15 +277,22 @@ def emit_format_bonding(repo, tier="quick"):
                 try:
                     r = ev.truth(ev.eval(ast.parse(text, mode="eval").body, env))
                 except Unsupported as err:
-                    raise AnalysisError("format_bonding guard outside the predicate language: %s" % err, fi.where(lp))
+                    undecided = "guard `%s` is outside the predicate language: %s" % (text, err)
+                    consistent = False
+                    break
                 if r != val:
                     consistent = False
             if consistent:
                 emitted = any(t[0] == "SYM" for t in wd)
+        if undecided:
+            break
         if emitted is None:
             guard_ok, why = False, "no consistent path for order %d" % order
         elif order != 1 and not emitted:
             guard_ok, why = False, "a descriptor of order %d is written without its symbol %r" % (order, sym)
+    if undecided:
+        obs.append(ob_undecided(oid, fi, lp, construct="guard of the order symbol", instance="symbol-guard", reason=undecided))
+        return obs
     (obs.append(ob_ok(oid, fi, lp, construct="symbol written for orders 0, 2, 3, 4", instance="symbol-guard", reason="only the default order 1 is left implicit")) if guard_ok else
      obs.append(ob_fail(oid, fi, lp, construct="guard of the order symbol", instance="symbol-guard", reason=why)))
     return obs
